@@ -230,6 +230,12 @@ fn run_case(prop: &str, case: &Line) -> Outcome {
     }
   };
   let mut cats: Vec<&str> = Vec::new();
+  // C13: a twin index of the same node with the same settings that is never crashed; after every
+  // completed update the crashed-and-resumed index must report the same result and hold the same content
+  let twin_dir = scratch_dir();
+  let mut twin: Option<Arc<ord::Index>> = None;
+  let mut crashed_since_compare = false;
+  let mut crash_kinds: Vec<String> = Vec::new();
   let mut n_updates = 0;
   let mut stale_possible; // node chain not longer than the index: stale blocks may legitimately stay
   let mut check_content = false;
@@ -281,6 +287,31 @@ fn run_case(prop: &str, case: &Line) -> Outcome {
             let dump = observe(&index, &mut obs);
             let flag = index.status(false).expect("status").unrecoverably_reorged;
             obs.push(flag);
+            if prop == "C13" {
+              if twin.is_none() {
+                let flags = w.flags();
+                let refs: Vec<&str> = flags.iter().map(|s| s.as_str()).collect();
+                twin = Some(Arc::new(ordkit::open_index(&w.core, twin_dir.path(), &refs)));
+              }
+              let t = twin.clone().unwrap();
+              let tr = t.update().map_err(|e| format!("{e:#}"));
+              let tcode: u8 = match &tr {
+                Ok(()) => 0,
+                Err(e) if e.contains("unrecoverable reorg") => 1,
+                Err(_) => 3,
+              };
+              if crashed_since_compare {
+                if tcode != code {
+                  fail(&mut oracle, format!("[resume-differs] after crash(es) at {crash_kinds:?} and resume, update() returned code {code} but an uninterrupted twin index returned {tcode}"));
+                } else if code == 0 {
+                  let a = ordkit::content(index.verif_dump().expect("dump"));
+                  let b = ordkit::content(t.verif_dump().expect("twin dump"));
+                  if a != b {
+                    fail(&mut oracle, format!("[resume-differs] after crash(es) at {crash_kinds:?} and resume the index differs from an uninterrupted twin: {}", first_difference(&a, &b)));
+                  }
+                }
+              }
+            }
             match (&r, code) {
               (Ok(()), _) => {
                 if !stale_possible && check_content {
@@ -315,10 +346,12 @@ fn run_case(prop: &str, case: &Line) -> Outcome {
       }
       4 => {
         w.close();
+        twin = None;
       }
       5 => {
         w.ci = c.u64();
         w.close();
+        twin = None;
       }
       6 => {
         let j = c.u64();
@@ -338,6 +371,18 @@ fn run_case(prop: &str, case: &Line) -> Outcome {
           .status()
           .expect("spawn child");
         cats.push(if status.success() { "crash-not-reached" } else { "crashed" });
+        if !status.success() {
+          crashed_since_compare = true;
+          crash_kinds.push(format!("{kind}:{n}"));
+        }
+        if prop == "C13" {
+          if twin.is_none() {
+            let flags = w.flags();
+            let refs: Vec<&str> = flags.iter().map(|s| s.as_str()).collect();
+            twin = Some(Arc::new(ordkit::open_index(&w.core, twin_dir.path(), &refs)));
+          }
+          let _ = twin.clone().unwrap().update();
+        }
         check_content = true;
         let index = w.index();
         let dump = observe(&index, &mut obs);
@@ -498,6 +543,12 @@ fn gen_c13(rng: &mut Rng, tier: &str) -> Vec<Line> {
     l = l.p(6u8).p(j).p(2u8);
     if rng.chance(1, 2) {
       l = l.p(1u8).p(rng.range(1, 4)).p(6u8).p(rng.range(0, 6)).p(2u8);
+    }
+    if rng.chance(1, 2) {
+      // after the crash and resume: a few more blocks, then a shallow reorg the uninterrupted run handles the same way
+      l = l.p(1u8).p(rng.range(1, iv + 1)).p(2u8);
+      let d = rng.range(1, iv.min(3));
+      l = l.p(3u8).p(d).p(d + rng.range(1, 2)).p(2u8);
     }
     v.push(l.done());
   }
